@@ -13,7 +13,7 @@
     Keys are indices into a pool; "signed by Priv k verifies under Pub k" and the
     parsing of PEM/X.509/JSON are trusted (see the level note). *)
 From HV Require Import Base.Prelude C16.Model C16.Spec C16.Proofs C16.Locks C16.LocksProofs
-  C16.Conc C16.ConcProofs C16.ConcExamples.
+  C16.Conc C16.ConcProofs C16.ConcExamples C16.ConcWindow.
 Open Scope string_scope.
 
 (** sub, iss, iat, nbf, exp, jti are the signer's, whatever the custom claims say;
@@ -296,6 +296,20 @@ Theorem C16_conc_hit_same_state : forall c st0 calls s i k0 t,
     c_claims (cl_cfg cl') = c_claims (cl_cfg cl).
 Proof. intros c. exact (hit_same_state fx_all eq_refl eq_refl c). Qed.
 Print Assumptions C16_conc_hit_same_state.
+
+(** the reuse window under any interleaving: a token call i finds in the cache was filed there by the Set step
+    of some call j at an earlier moment, under the same key, and less than (ttl of call i) − 5 s of cache time
+    lie between that moment and call i's lookup.  (The window starts at the store, not at the signing: time a
+    call spends between its Sign section and its Set step is not counted by the code.) *)
+Theorem C16_conc_hit_within_window : forall c st0 calls s i k0 t,
+  loaded c st0 ->
+  let G x := crun fx_all c x (cinit st0 calls) in
+  pc_of i (G s) = Some (PKeyed k0) -> pc_of i (G (s ++ [SThread i])) = Some (PRet t) ->
+  exists j sa sb cl,
+    s = sa ++ SThread j :: sb /\ pc_of j (G sa) = Some (PSigned k0 t) /\ nth_error calls i = Some cl /\
+    (g_clock (G s) < g_clock (G sa) + (ttl_of (cl_cfg cl) - cache_leeway))%Z.
+Proof. intros c. exact (hit_within_window fx_all eq_refl eq_refl c). Qed.
+Print Assumptions C16_conc_hit_within_window.
 
 (** the invariant behind both, for every reachable configuration: the signer's fields are those of one
     loaded file; every cache entry is a logged token filed under the key of the state and call it was made
